@@ -170,6 +170,9 @@ func taScenarios(thorough bool) []*scenario {
 	// kernel-isolated CPUs that are actually handed out (preferIsolated on), released and competed for again by a request
 	// that cannot be isolated as a whole
 	add("ta/iso-preferred/G2-G1-G3-B500", machine16iso(), []cfgSpec{taCfg("iso", taPreferIsolated(true))}, pods(tG2, tG1, tG3, tB500), menu{stop: true, remove: true}, nil)
+	// a kernel-isolated CPU used as THE reserved CPU (accepted by design) while isolated CPUs are handed out exclusively
+	add("ta/iso-reserved/KS-G1-G1-B500", machine16iso(), []cfgSpec{taCfg("rsv-iso3", taReserved("cpuset:3"), taPreferIsolated(true))},
+		append([]podSpec{ks}, pods(tG1, tG1, tB500)...), menu{stop: true, remove: true}, nil)
 	// accepted reconfigurations that take away the very CPUs exclusive grants sit on (available set shrunk to either half,
 	// reserved set moved onto either half): the grants cannot be reinstated verbatim and the policy re-allocates everything
 	add("ta/reconf-takes-granted-cpus/G2-B500-KS", machine16(),
@@ -188,6 +191,13 @@ func taScenarios(thorough bool) []*scenario {
 	add("ta/class-annotated/G2-B500-BE", machine16(), std,
 		[]podSpec{pod1("a", "default", "Guaranteed", tG2, map[string]string{"blockioclass." + annNS + "/container.c": "slow"}),
 			pod1("b", "default", "Burstable", tB500, map[string]string{"rdtclass." + annNS + "/pod": "gold"}), pods(tBE)[0]}, menu{start: true, stop: true}, nil)
+	// explicit affinity and anti-affinity between containers: pool choice is driven by where other containers sit
+	// (coverage.sh showed the affinity part of the pool scoring was never executed)
+	affTo0 := "c:\n- scope:\n    key: namespace\n    operator: In\n    values: [ default ]\n  match:\n    key: pod/name\n    operator: In\n    values: [ pod0 ]\n  weight: 10\n"
+	add("ta/affinity/G1-B500(aff)-B500(anti)-G2(aff)", machine16(), std,
+		[]podSpec{pods(tG1)[0], pod1("near", "default", "Burstable", tB500, map[string]string{annNS + "/affinity": affTo0}),
+			pod1("far", "default", "Burstable", tB500, map[string]string{annNS + "/anti-affinity": affTo0}),
+			pod1("near2", "default", "Guaranteed", tG2, map[string]string{annNS + "/affinity": affTo0})}, menu{stop: true, remove: true}, nil)
 	// shared containers in inner pools (too big for a NUMA node / a socket) next to exclusive grants below them
 	add("ta/inner/B5000-G2-B500", machine16(), std, pods(tB5000, tG2, tB500), menu{stop: true, remove: true}, nil)
 	add("ta/inner/B9000-G2-G1500", machine16(), std, pods(tB9000, tG2, tG1500), menu{stop: true, remove: true}, nil)
@@ -357,6 +367,15 @@ func blScenarios(thorough bool) []*scenario {
 	}
 	add("bl/classes-refused-resize", machine8(), []cfgSpec{blCfg("tight", tight, blIdleClass("idle"))},
 		[]podSpec{nsPod("a", "fast", tG2, nil), nsPod("b", "slow", tG4, nil), nsPod("c", "fast", tG3, nil)}, menu{stop: true, remove: true})
+	// 4e. allocator options the other configurations leave at their defaults: topology balancing, spreading over physical
+	// cores, memory types, allocator priority, isolated CPUs preferred (coverage.sh: the corresponding CPU-tree code never ran)
+	opts := []*blcfg.BalloonDef{
+		{Name: "bal", Namespaces: []string{"bal"}, MinCpus: 1, MaxCpus: 4, PreferNewBalloons: true, AllocatorTopologyBalancing: bptr(true), ShareIdleCpusInSame: blcfg.CPUTopologyLevelNuma},
+		{Name: "spread", Namespaces: []string{"spread"}, MinCpus: 2, MaxCpus: 4, PreferSpreadOnPhysicalCores: bptr(true), MemoryTypes: []string{"dram"}, AllocatorPriority: "high"},
+		{Name: "iso", Namespaces: []string{"iso"}, MaxCpus: 2, PreferIsolCpus: true},
+	}
+	add("bl/allocator-options", machine16iso(), []cfgSpec{blCfg("opts", opts, func(c *cfgapi.BalloonsPolicy) { c.Spec.Config.AllocatorTopologyBalancing = true })},
+		[]podSpec{nsPod("a", "bal", tG2, nil), nsPod("b", "bal", tG1, nil), nsPod("c", "spread", tG3, nil), nsPod("d", "iso", tG1, nil)}, lm)
 	// 5. several balloons with hidden hyperthreads that share idle CPUs: one event re-pins more than one balloon
 	noht := []*blcfg.BalloonDef{
 		{Name: "noht", Namespaces: []string{"noht"}, MinCpus: 1, MaxCpus: 4, PreferNewBalloons: true, HideHyperthreads: bptr(true), ShareIdleCpusInSame: blcfg.CPUTopologyLevelPackage},
@@ -998,13 +1017,17 @@ func c16PoolCases(thorough bool) []*scenario {
 								taCfg(fmt.Sprintf("avail-0-%d", ncpu-2), taAvailable(fmt.Sprintf("cpuset:0-%d", ncpu-2)), taReserved("cpuset:0")),
 								taCfg(fmt.Sprintf("avail-1-%d", ncpu-1), taAvailable(fmt.Sprintf("cpuset:1-%d", ncpu-1)), taReserved("1500m")),
 							}
-							if len(m.Isolated) > 0 {
-								// a kernel-isolated CPU as the (sole) reserved CPU is accepted by design
-								cfgs = append(cfgs, taCfg("rsv-isolated", taReserved(fmt.Sprintf("cpuset:%d", m.Isolated[0]))))
-							}
 							if thorough {
-								cfgs = append(cfgs, taCfg("avail-half", taAvailable(fmt.Sprintf("cpuset:0-%d", ncpu/2)), taReserved("cpuset:0")),
-									taCfg("rsv-last", taReserved(fmt.Sprintf("cpuset:%d", ncpu-2))))
+								cfgs = append(cfgs, taCfg("avail-half", taAvailable(fmt.Sprintf("cpuset:0-%d", ncpu/2)), taReserved("cpuset:0")))
+								rsvIsolated := false
+								for _, ic := range m.Isolated {
+									if ic == ncpu-2 {
+										rsvIsolated = true // the property excludes a reserved cpuset that is itself kernel-isolated (that case is C01's, see ta/iso-reserved)
+									}
+								}
+								if !rsvIsolated {
+									cfgs = append(cfgs, taCfg("rsv-last", taReserved(fmt.Sprintf("cpuset:%d", ncpu-2))))
+								}
 							}
 							for _, cfg := range cfgs {
 								out = append(out, &scenario{name: m.Name + "/" + cfg.label, policy: polTA, machine: m, cfgs: []cfgSpec{cfg}, maxInc: 1})
